@@ -535,7 +535,12 @@ def _step(entry):
         zz = z[~np.isnan(z)]
         amax = float(np.max(np.abs(zz))) if zz.size else 0.0
         return amax / 32767.0 * (1 + 1e-9) + amax * 1e-12
-    return entry["wvl"] * 1e3 / 32768.0
+    # the step of the FILE: the header holds the wavelength as a float32 and that is the number the counts are
+    # multiples of (up to 6e-8 relative away from the double the caller passed); the larger of the two
+    import numpy as np
+    w64 = entry["wvl"] * 1e3 / 32768.0
+    w32 = float(np.float32(entry["wvl"] * 1e-6)) * 1e9 / 32768.0
+    return max(w64, w32)
 
 
 def _judge(w, entry, spans, k, res, step_i, viol, bump, probes):
